@@ -4,22 +4,30 @@
 pub struct LabeledTimeout { pub _p: u8 }
 pub struct Timeouts { pub _p: u8 }
 impl Timeouts {
+    /// the configured PDU timeout (src/timer_factory.rs / maindevice_config.rs)
+    pub uninterp spec fn pdu_v(&self) -> LabeledTimeout;
     #[verifier::external_body]
-    pub fn pdu(&self) -> (r: LabeledTimeout) { unimplemented!() }
+    pub fn pdu(&self) -> (r: LabeledTimeout) ensures r == self.pdu_v() { unimplemented!() }
     #[verifier::external_body]
     pub fn state_transition(&self) -> (r: LabeledTimeout) { unimplemented!() }
     /// the pause between two polls (src/timer_factory.rs)
     #[verifier::external_body]
     pub async fn loop_tick(&self) { unimplemented!() }
 }
-pub struct RetryBehaviour { pub _p: u8 }
+/*@type file=src/maindevice_config.rs name=RetryBehaviour derive="Clone, Copy, PartialEq, Eq, Debug" @*/
+pub open spec fn retries_of(b: RetryBehaviour) -> usize {
+    match b { RetryBehaviour::None => 0, RetryBehaviour::Count(n) => n, RetryBehaviour::Forever => usize::MAX }
+}
 impl RetryBehaviour {
-    #[verifier::external_body]
-    pub fn retry_count(&self) -> (r: usize) { unimplemented!() }
+/*@fn file=src/maindevice_config.rs impl="impl RetryBehaviour" name=retry_count noconst=1 props=C06
+    ensures r == retries_of(*self)
+@*/
 }
 pub struct MainDeviceConfig { pub retry_behaviour: RetryBehaviour }
 
-pub struct PduLoop { pub area: usize }
+/// (`cfg_timeout` / `cfg_retries`: ghost - the PDU timeout and retry count configured for the MainDevice this loop belongs to; used only
+/// to state that EVERY frame is handed to the transmit side with them, C06 "the configured number of retries")
+pub struct PduLoop { pub area: usize, pub cfg_timeout: Ghost<LabeledTimeout>, pub cfg_retries: Ghost<usize> }
 impl PduLoop {
     /// alloc_frame: a fresh, empty frame whose PDU area has the configured size (Kani groups storage/slots), or SwapState
     #[verifier::external_body]
@@ -30,6 +38,12 @@ impl PduLoop {
     pub fn wake_sender(&self) { unimplemented!() }
 }
 pub struct MainDevice { pub pdu_loop: PduLoop, pub timeouts: Timeouts, pub config: MainDeviceConfig }
+impl MainDevice {
+    /// the loop's ghost configuration IS this MainDevice's configuration
+    pub open spec fn cfg_ok(&self) -> bool {
+        self.pdu_loop.cfg_timeout@ == self.timeouts.pdu_v() && self.pdu_loop.cfg_retries@ == retries_of(self.config.retry_behaviour)
+    }
+}
 
 /// one received datagram: its data area and working counter
 pub struct RxPdu { pub data: Seq<u8>, pub wkc: u16 }
@@ -49,6 +63,9 @@ pub open spec fn echo_shape(sent: Seq<PduSpec>, got: Seq<RxPdu>) -> bool {
 impl CreatedFrame {
     #[verifier::external_body]
     pub fn mark_sendable(self, pdu_loop: &PduLoop, timeout: LabeledTimeout, retries: usize) -> (r: FrameFut)
+        // C06: a frame waits for its response under the CONFIGURED PDU timeout and is re-sent the CONFIGURED number of times
+        // (the real mark_sendable stores exactly what it is given: unit created_frame)
+        requires timeout == pdu_loop.cfg_timeout@, retries == pdu_loop.cfg_retries@
         ensures r.sent@ == self.pdus@
     { unimplemented!() }
 }
